@@ -257,11 +257,28 @@ class StingyConfigurator(pg.All):
                 out : Dict[str, int]
         """
         flat = self.flatten()
+        
+        # An id may occur more than once in the model (e.g. the non default part of an Any
+        # which also is the consequence of another rule) and only one of the occurrences is 
+        # kept by flatten. The lowest prio of them is the one to use.
+        def prios(proposition):
+            return itertools.chain(
+                [(proposition.id, getattr(proposition, "prio", -1))],
+                *map(
+                    prios, 
+                    getattr(proposition, "compound_propositions", []),
+                )
+            )
+
+        lowest = {}
+        for _id, prio in prios(self):
+            lowest[_id] = min(prio, lowest.get(_id, prio))
+
         return dict(
             zip(
                 map(operator.attrgetter("id"), flat),
                 map(
-                    lambda p: getattr(p, "prio", -1),
+                    lambda p: lowest.get(p.id, getattr(p, "prio", -1)),
                     flat
                 )
             )
